@@ -23,8 +23,6 @@ import (
 	"verifharness/lib"
 
 	"github.com/ipld/go-ipld-prime/schema"
-	schemadmt "github.com/ipld/go-ipld-prime/schema/dmt"
-	schemadsl "github.com/ipld/go-ipld-prime/schema/dsl"
 	gengo "github.com/ipld/go-ipld-prime/schema/gen/go"
 )
 
@@ -114,28 +112,11 @@ func buildBatch(dir string, schemas []*lib.SchTy, rng *lib.Rng, st *batchStatus)
 	t0 := time.Now()
 	var names []string
 	err := lib.Safely(func() error {
-		ts := schema.TypeSystem{}
-		ts.Init()
-		ts.Accumulate(schema.SpawnBool("Bool"))
-		ts.Accumulate(schema.SpawnInt("Int"))
-		ts.Accumulate(schema.SpawnFloat("Float"))
-		ts.Accumulate(schema.SpawnString("String"))
-		ts.Accumulate(schema.SpawnBytes("Bytes"))
-		ts.Accumulate(schema.SpawnLink("Link"))
-		var dsl strings.Builder
-		for _, t := range schemas {
-			dsl.WriteString(t.DSL())
-		}
-		sch, err := schemadsl.ParseBytes([]byte(dsl.String()))
+		tsp, err := lib.SchTypeSystem(schemas, false)
 		if err != nil {
 			return err
 		}
-		if err := schemadmt.SpawnSchemaTypes(&ts, sch); err != nil {
-			return err
-		}
-		if errs := ts.ValidateGraph(); errs != nil {
-			return fmt.Errorf("schema graph: %v", errs)
-		}
+		ts := *tsp
 		adj := &gengo.AdjunctCfg{CfgUnionMemlayout: map[schema.TypeName]string{}}
 		types := ts.GetTypes()
 		for name := range types {
